@@ -486,6 +486,14 @@ func ruleIdx7(c *Ctx, r *Reporter) {
 			n++
 			arg := call.Call.Args[len(call.Call.Args)-1]
 			key := funcName(fn) + ":Index.Build list"
+			fn := fn
+			if rv := resolveHelperValue(stripValue(arg)); rv != stripValue(arg) {
+				// the list is a parameter of a private helper: what its only caller passes
+				arg = rv
+				if in2, ok := rv.(ssa.Instruction); ok && in2.Parent() != nil {
+					fn = in2.Parent()
+				}
+			}
 			// (a) <x>.Documents.List
 			if u, ok := stripValue(arg).(*ssa.UnOp); ok && u.Op == token.MUL {
 				if fa, ok := u.X.(*ssa.FieldAddr); ok && structFieldOf(fa) == listF {
@@ -1280,6 +1288,38 @@ func ruleUpd2(c *Ctx, r *Reporter) {
 			scans = append(scans, call)
 		}
 	})
+	// the library form of the scan: slices.ContainsFunc / IndexFunc(arr, func(e) bool { ... Compare(e, val) ... })
+	libScanned := map[*ssa.Call]ssa.Value{}
+	allInstrs(fn, func(in ssa.Instruction) {
+		call, ok := in.(*ssa.Call)
+		if !ok || len(call.Call.Args) != 2 {
+			return
+		}
+		f := calleeObj(&call.Call)
+		if f == nil || f.Pkg() == nil || f.Pkg().Path() != "slices" || (f.Name() != "ContainsFunc" && f.Name() != "IndexFunc") {
+			return
+		}
+		mc, ok := call.Call.Args[1].(*ssa.MakeClosure)
+		if !ok {
+			return
+		}
+		pred, _ := mc.Fn.(*ssa.Function)
+		if pred == nil || len(pred.Params) != 1 {
+			return
+		}
+		allInstrs(pred, func(x ssa.Instruction) {
+			cmp, ok := x.(*ssa.Call)
+			if !ok || calleeObj(&cmp.Call) != cmpF {
+				return
+			}
+			for _, a := range cmp.Call.Args {
+				if stripValue(a) == ssa.Value(pred.Params[0]) {
+					libScanned[cmp] = stripValue(call.Call.Args[0])
+					scans = append(scans, cmp)
+				}
+			}
+		})
+	})
 	if put == nil || len(scans) == 0 {
 		r.bad("$addToSet:shape", c.pos(fn.Pos()), "no bsonkit.Put of the new array or no membership comparison found")
 		return
@@ -1296,6 +1336,9 @@ func ruleUpd2(c *Ctx, r *Reporter) {
 					scanned = ia.X
 				}
 			}
+		}
+		if v, ok := libScanned[sc]; ok {
+			scanned = v
 		}
 		if scanned == nil {
 			continue
@@ -1909,7 +1952,16 @@ func ruleUpd3(c *Ctx, r *Reporter) {
 		bad := ""
 		var putBlocks []*ssa.BasicBlock
 		allInstrs(fn, func(in ssa.Instruction) {
-			if put, ok := in.(*ssa.Call); ok && calleeObj(&put.Call) == putF {
+			put, ok := in.(*ssa.Call)
+			if !ok {
+				return
+			}
+			isPut := calleeObj(&put.Call) == putF
+			if h := staticFn(&put.Call); !isPut && h != nil && h.Blocks != nil && fnPkgPath(h) == pkgMongokit && len(callsIn(h, pkgBsonkit, "Put")) > 0 {
+				// a function of the package that writes the document (set-and-record helper)
+				isPut = true
+			}
+			if isPut {
 				puts++
 				putBlocks = append(putBlocks, put.Block())
 			}
@@ -2054,7 +2106,7 @@ func ruleProj3(c *Ctx, r *Reporter) {
 	// the copying Put: value is the result of Get(doc, <same path>)
 	var put *ssa.Call
 	var get *ssa.Call
-	allInstrs(fn, func(in ssa.Instruction) {
+	coneInstrs(fn, func(in ssa.Instruction) {
 		call, ok := in.(*ssa.Call)
 		if !ok || calleeObj(&call.Call) != putF {
 			return
@@ -2783,12 +2835,12 @@ var statusBool = map[string]bool{"Add": true, "Remove": true, "Replace": true, "
 
 // droppable: "caller function -> callee" pairs whose dropped result is deliberate, with the reason.
 var err1Allowed = map[string]string{
-	"dbkit.AtomicWriteFile -> File.Close":      "deferred close of the directory handle after its fsync was checked",
-	"dbkit.AtomicWriteFile$1 -> File.Close":    "clean-up of the temporary file on a path that already failed",
-	"dbkit.AtomicWriteFile$1 -> os.Remove":     "clean-up of the temporary file on a path that already failed",
-	"bsonkit.NewSet -> Set.Add":                "a document listed twice is kept once: the duplicate is ignored by design",
-	"lungo.Transaction.Clean -> Set.Remove":    "removes List[0] of the cloned oplog, which is always present (LOG-3 checks the operand)",
-	"lungo.Stream.ResumeToken -> bson.Marshal": "marshalling a document produced by the library itself",
+	"dbkit.AtomicWriteFile -> File.Close":         "deferred close of the directory handle after its fsync was checked",
+	"dbkit.AtomicWriteFile$closure -> File.Close": "clean-up of the temporary file on a path that already failed",
+	"dbkit.AtomicWriteFile$closure -> os.Remove":  "clean-up of the temporary file on a path that already failed",
+	"bsonkit.NewSet -> Set.Add":                   "a document listed twice is kept once: the duplicate is ignored by design",
+	"lungo.Transaction.Clean -> Set.Remove":       "removes List[0] of the cloned oplog, which is always present (LOG-3 checks the operand)",
+	"lungo.Stream.ResumeToken -> bson.Marshal":    "marshalling a document produced by the library itself",
 }
 
 // err1AnyCaller: clean-up calls whose error carries no information the caller could act on, wherever they are made.
@@ -2889,7 +2941,7 @@ func ruleErr1(c *Ctx, r *Reporter) {
 				}
 				caller := strings.TrimPrefix(strings.TrimPrefix(funcName(fn), "(*"), "(")
 				caller = strings.Replace(caller, ")", "", 1)
-				pair := caller + " -> " + callee
+				pair := closureNeutral(caller) + " -> " + callee
 				key := "dropped result: " + pair
 				if ci, ok := in.(ssa.CallInstruction); ok && isReadOnlyHandleClose(ci) {
 					r.ok(key, c.pos(in.Pos()), "closing a handle obtained from os.Open (read-only): nothing to lose")
@@ -2902,6 +2954,25 @@ func ruleErr1(c *Ctx, r *Reporter) {
 				if reason, ok := err1Allowed[pair]; ok {
 					used[pair] = true
 					r.ok(key, c.pos(in.Pos()), "listed clean-up site: "+reason)
+					continue
+				}
+				// the listed site may have moved into a private helper of the listed function
+				moved := false
+				for g, d := fn, 0; d < 3 && !moved; d++ {
+					site := helperSite(g)
+					if site == nil {
+						break
+					}
+					g = site.Parent()
+					up := strings.TrimPrefix(strings.TrimPrefix(funcName(g), "(*"), "(")
+					up = strings.Replace(up, ")", "", 1)
+					if reason, ok := err1Allowed[closureNeutral(up)+" -> "+callee]; ok {
+						used[closureNeutral(up)+" -> "+callee] = true
+						r.ok(key, c.pos(in.Pos()), "listed clean-up site (in a private helper of "+up+"): "+reason)
+						moved = true
+					}
+				}
+				if moved {
 					continue
 				}
 				kind := "error"
